@@ -15,6 +15,7 @@ mod c05;
 mod c06;
 mod big;
 mod c08;
+mod c16;
 mod c17;
 mod c20;
 mod serde_abs;
@@ -37,6 +38,10 @@ fn main() {
     // a panic in the code under test is data (caught where it matters); keep stderr quiet
     std::panic::set_hook(Box::new(|_| {}));
     let args: Vec<String> = std::env::args().collect();
+    if args.len() == 5 && args[1] == "c16-child" {
+        c16::child(&args[2], args[3].parse().expect("start index"), &args[4]);
+        return;
+    }
     if args.len() == 5 && args[1] == "c03-child" {
         c03::child(&args[2], args[3].parse().expect("start index"), &args[4]);
         return;
@@ -77,6 +82,8 @@ fn main() {
         "c20-replay" => c20::replay_case(&cfg),
         "c17" => c17::run(&cfg),
         "c17-replay" => c17::replay_case(&cfg),
+        "c16" => c16::run(&cfg),
+        "c16-replay" => c16::replay_case(&cfg),
         "c01" => c01::run(&cfg),
         "c01-replay" => c01::replay_case(&cfg),
         x => {
